@@ -32,6 +32,9 @@ func runC06(c *an.Ctx) {
 	ruleF4(c)
 	ruleF5(c)
 	ruleF6(c)
+	ruleF7(c)
+	ruleF8(c)
+	ruleF9(c)
 }
 
 func existsCallOf(p *an.Prog, v ssa.Value, file string) bool {
